@@ -19,6 +19,8 @@ def run(tier):
         fams.append(("gotoloop", p, root, None))
     for p, root in gen_clos.late_capture_cases():
         fams.append(("latecapture", p, root, None))
+    for p, root in gen_clos.twin_env_cases():
+        fams.append(("twinenv", p, root, None))
     for p, root in gen_clos.selfref_cases():
         fams.append(("selfref", p, root, None))
     for p, root in gen_clos.retry_cases():
